@@ -31,12 +31,12 @@ NOTES = ("Technique family: static analysis only. Every check parses the "
          "finding). Exit 2 + ANALYSIS-ERROR means the analysis could not be "
          "carried out (anchor vanished, shape outside the known idioms); it "
          "is never a verdict. The thorough tier adds checker "
-         "self-validation on the recorded corpora: 522 seeded "
-         "property-breaking changes (521 reported, one recorded gap), 16 "
-         "mechanical variants and 522 hand-made behaviour-preserving "
+         "self-validation on the recorded corpora: 609 seeded "
+         "property-breaking changes (all reported), 16 "
+         "mechanical variants and 609 hand-made behaviour-preserving "
          "refactorings (all silent). Held-out first-run "
-         "rates of the last two waves: 69 % of 87 unseen breaking changes "
-         "reported, 3 % of 87 unseen refactorings noisy (DESIGN.md 7.4).")
+         "rates of the last two waves: 77 % of 87 unseen breaking changes "
+         "reported, 8 % of 87 unseen refactorings noisy (DESIGN.md 7.4).")
 
 _TRUST = ("Python semantics of the constructs the rules read; the frozen "
           "reference tables named in the evidence file (eBPF ISA encoding, "
@@ -372,8 +372,12 @@ _ABSTRACT = {
     "C13": "abstract execution of roundtrip on 31 argument lists run on one "
            "master in two orders (bounded, with histories)",
     "C14": "abstract execution of to_operational against a model of the ESC "
-           "state machine, 146 runs (bounded, model-based)",
-    "C16": "CFG must-pass rule on mbx_send",
+           "state machine, 190 runs (bounded, model-based)",
+    "C15": "abstract execution of ParallelMailboxLock against a model of "
+           "the lock file (record locks per process, contention, a pickled "
+           "lock; bounded, model-based)",
+    "C16": "CFG must-pass rule on mbx_send, CFG reachability rule on "
+           "mbx_recv; shares the lock-file model of C15",
     "C17": "abstract execution of read_eeprom / _eeprom_read_one / "
            "eeprom_read against a model of the SII interface (164 runs "
            "with histories), of parse_sync_managers on 72 record tables, of "
@@ -387,7 +391,8 @@ _ABSTRACT = {
            "abstract execution of the descriptors with descriptor objects "
            "shared across channels and of TerminalVar over value kinds",
     "C20": "abstract execution of map_fmmu on all slot tables of 1-4 FMMUs "
-           "over three owner kinds (720 runs)",
+           "over three owner kinds (720 runs); who-may-write rule for the "
+           "FMMU registers",
     "C21": "shares the allocation family of C18 and the sterile / writer "
            "rules of C11; linear normal forms of frame offsets; aliasing "
            "rule for the sterile template; CFG rule for the slot lookup",
